@@ -157,6 +157,17 @@ def _dynamic_one(ctx, tid0, desc, net, k, rng, solver, method, flags):
     names = sorted({x for r, pp in desc["reactions"] for x in r + pp} | set(desc["required"]))
     slot = {n: O.slot_of(n, macros, net.species) for n in names}
     eslots = {s for n, s in slot.items() if n in O.ELECTRONS}
+    # element totals computed HERE from the abundances and the intended compositions (not by the generated GetElementAbund, which the
+    # generated Renorm itself relies on)
+    eidx = {m_[len("IDX_ELEM_"):]: v_ for m_, v_ in macros.items() if m_.startswith("IDX_ELEM_")}
+
+    def totals(ab_):
+        tot = [0.0] * nel
+        for n_, s_ in slot.items():
+            for e_, c_ in O.POOL[n_][0].items():
+                if e_ in eidx:
+                    tot[eidx[e_]] += c_ * ab_[s_]
+        return tot
     seqs = [[0, 1, 1, 2, 1, 1], [0, 1, 2, 1, 0, 1, 1], [0, 2, 1, 1, 1]]
     lines, metas = [], []
     for q, ops in enumerate(seqs):
@@ -193,8 +204,9 @@ def _dynamic_one(ctx, tid0, desc, net, k, rng, solver, method, flags):
                 evs.append({"act": "Perturb"})
             else:
                 finite = all(x is not None and math.isfinite(x) for x in ab) and e["hn"] is not None
-                ratios_ok = finite and e["hn"] and all(el is not None and abs(el / e["hn"] - r / refA[hidx]) <= 1e-9 * max(abs(r / refA[hidx]), 1e-300)
-                                                         for el, r in zip(e["elem"], refA))
+                tot = totals(ab) if finite else []
+                ratios_ok = finite and tot[hidx] and all(abs(el / tot[hidx] - r / refA[hidx]) <= 1e-9 * max(abs(r / refA[hidx]), 1e-300)
+                                                           for el, r in zip(tot, refA))
                 same_e = finite and all(ab[s] == prev[s] for s in eslots)
                 unchanged = finite and all(abs(a - b) <= 1e-9 * max(abs(a), abs(b)) for a, b in zip(ab[:nsp], prev[:nsp]))
                 evs.append({"act": "Renorm", "finite": bool(finite), "ratios_ok": bool(ratios_ok), "electrons_same": bool(same_e), "unchanged": bool(unchanged),
@@ -228,6 +240,10 @@ def main(ctx: Ctx) -> int:
           "required": []}, "hydrogen-early"),
         ({"reactions": [(["GRAIN0", "e-"], ["GRAIN0-"]), (["H", "H"], ["H2"])], "required": []}, "grain"),
         ({"reactions": [(["H", "H"], ["H2"]), (["CO", "H"], ["CO", "H"])], "required": []}, "element-without-atom"),
+        # hydrogen carried by ten species, carbon and oxygen by four each (the element sums run over more than one source line)
+        ({"reactions": [(["H", "H"], ["H2"]), (["H2", "H+"], ["H3+"]), (["CH", "H"], ["C", "H2"]), (["OH", "H"], ["O", "H2"]), (["H2O", "H"], ["OH", "H2"]),
+                        (["CH2", "H"], ["CH", "H2"]), (["H2+", "H2"], ["H3+", "H"]), (["CH+", "H"], ["C+", "H2"]), (["CO", "H3+"], ["HCO+", "H2"])],
+          "required": []}, "many-carriers"),
     ]
     randoms = [gen_network(rng) for _ in range(nstat)]
     O.POOL.update({"GRAIN0": ({"GRAIN": 1}, 0), "GRAIN0-": ({"GRAIN": 1}, -1)})
@@ -241,7 +257,7 @@ def main(ctx: Ctx) -> int:
         except Exception as e:   # noqa
             ctx.violation(f"C16|Render|{type(e).__name__}|{kind}", f"{type(e).__name__}: {e}", {"desc": desc})
             continue
-        if k < ndyn or kind in ("grain", "hydrogen-early"):
+        if k < ndyn or kind in ("grain", "hydrogen-early", "many-carriers"):
             traces += dynamic_traces(ctx, len(traces) + 1, desc, net, k, rng)
         if kind == "random" and k % 2 == 0:
             # a network object, rendered once, then remove_reaction takes an element out of it entirely: the emitted tables must be those
